@@ -125,20 +125,15 @@ def readBody (H : Bytes → Bytes) (table : List (Bytes × Nat)) (decode : Bytes
         | none => ⟨.error .deserialize, hdr.length, headerSize + hdr.length⟩
         | some m => ⟨.ok (hdr.getCMD, m), hdr.length, headerSize + hdr.length⟩
 
-/-- the reader on an already split stream: four header fields and the rest. -/
-def readFields (H : Bytes → Bytes) (table : List (Bytes × Nat)) (decode : Bytes → Bytes → Option α)
-    (magic : Nat) (m4 c12 l4 k4 tail : Bytes) : Out α :=
-  match parseFields m4 c12 l4 k4 with
-  | none => ⟨.error .invalidHeader, 0, headerSize⟩
-  | some hdr =>
-    if hdr.magic ≠ magic then ⟨.error .unmatchedMagic, 0, headerSize⟩
-    else readBody H table decode hdr tail
-
-/-- `ReadMessage(r, magic, timeout, createMessage)` on the byte stream `s`. -/
+/-- `ReadMessage(r, magic, timeout, createMessage)` on the byte stream `s`:
+    `io.ReadFull` of 24 bytes, `hdr.Deserialize`, the magic check, then `createMessage(hdr, r)`. -/
 def readMessage (H : Bytes → Bytes) (table : List (Bytes × Nat)) (decode : Bytes → Bytes → Option α)
     (magic : Nat) (s : Bytes) : Out α :=
   if s.length < headerSize then ⟨.error .shortHeader, 0, s.length⟩
-  else readFields H table decode magic (s.take 4) ((s.drop 4).take 12) ((s.drop 16).take 4)
-        ((s.drop 20).take 4) (s.drop 24)
+  else match Header.deserialize (s.take headerSize) with
+    | none => ⟨.error .invalidHeader, 0, headerSize⟩
+    | some hdr =>
+      if hdr.magic ≠ magic then ⟨.error .unmatchedMagic, 0, headerSize⟩
+      else readBody H table decode hdr (s.drop headerSize)
 
 end ElaVerif.P2PFrame
